@@ -132,9 +132,7 @@ def check_diagnostic(s, err_pieces, referr, aspects):
         mm = re.search(rb"got '([a-z]+)'", msg)
         if mm and mm.group(1).decode() != info['got']:
             problems.append(('message', "type diagnostic says got '%s' for a value of type '%s'" % (mm.group(1).decode(), info['got'])))
-    if k == 'not-callable' and info.get('got'):
-        if ("'%s'" % info['got']).encode() not in msg: problems.append(('message', 'call diagnostic does not name the type %r: %r' % (info['got'], msg[:100])))
-    if k == 'redeclare':
+    if k == 'redeclare' and info.get('prev') and tuple(info['prev']) != (0, 0):
         pl, pc_ = info['prev']
         if ('%d:%d' % (pl, pc_)).encode() not in msg: problems.append(('message', 'redeclaration diagnostic does not cite the earlier position %d:%d: %r' % (pl, pc_, msg[:100])))
     if k in ('int-overflow', 'mod-zero'):
@@ -151,8 +149,6 @@ def check_diagnostic(s, err_pieces, referr, aspects):
             else: seq.append(p)
         want = [info['lhs'], info['op'].encode(), info['rhs']]
         if not match_operand_seq(s, seq, want): problems.append(('message', 'arithmetic diagnostic does not name `lhs op rhs`: %r' % (first,)))
-    if k in ('undefined',) and info.get('name'):
-        if info['name'].encode() not in msg: problems.append(('message', 'diagnostic does not name %r' % info['name']))
     # stack trace
     exp = [b"  t.sd:%d:%d: in '%s'" % (l[0], l[1], c.encode()) for (l, c) in referr.stack]
     restb = b''.join(p if isinstance(p, bytes) else b'\x00' for p in rest)
@@ -196,6 +192,7 @@ def path_fn_for(tmpl, aspects, assume=None, ref_prog=None):
     text = T.placeholder_text(tmpl['src'])
     def pf(M):
         M.symvars = {}
+        M.max_dec = tmpl.get('max_dec'); M.truncated = 0
         for h in T.holes_of(tmpl['src']): T.sym_for(M, h)
         if assume is not None:
             for c in assume(M.symvars): M.assume(c)
@@ -216,6 +213,7 @@ def path_fn_for(tmpl, aspects, assume=None, ref_prog=None):
         r, m = sat_model(M.solver)
         if r != z3.sat: raise PathEnd('infeasible at end')
         obs['wit'] = {k: X.model_value(m, v) for k, v in M.symvars.items()}
+        obs['truncated'] = M.truncated
         obs['pred'] = {'code': code if status == 'ok' else 101, 'out': eval_pieces(m, outp).decode('latin1'), 'err': eval_pieces(m, errp).decode('latin1'), 'panic': status == 'panic'}
         if status == 'panic' and 'step limit' in detail:
             obs['real'] = 'hang'
@@ -227,7 +225,14 @@ def path_fn_for(tmpl, aspects, assume=None, ref_prog=None):
             if outcome[0] == 'unspecified':
                 obs['silent'].append(outcome[1]); obs['ref'].append('unspecified')
                 # a crash is a violation whatever the reference says about the rest
-                if obs['real'] in ('panic', 'hang') and s is not None:
+                if len(outcome) > 2 and obs['real'] == 'ok' and code == 103 and s is not None and 'stdout' in aspects:
+                    # an unspecified *print*: if the run fails there, stdout must be exactly the output of the prints completed before
+                    d0 = compare_pieces(s, outp, outcome[2])
+                    if d0 is not None and d0[0] == 'diff':
+                        obs['violations'].append({'aspect': 'stdout', 'what': 'a failing print left a fragment on stdout: %r, completed prints %r' % (eval_pieces(d0[1], outp)[:160], eval_pieces(d0[1], outcome[2])[:160]), 'wit': wit_of(d0[1]), 'ref': 'unspecified-print'})
+                if obs['real'] == 'hang' and ('budget' in outcome[1] or 'recursion' in outcome[1]):
+                    pass        # the program does not terminate under the reference either: not a program the properties speak about
+                elif obs['real'] in ('panic', 'hang') and s is not None:
                     r0, mdl0 = sat_model(s)
                     a0 = 'panic' if obs['real'] == 'panic' else 'hang'
                     if r0 == z3.sat and a0 in aspects:
@@ -307,6 +312,7 @@ def run_template(M, tmpl, aspects, binary, workdir, par=16, timeout=600):
             res['inconclusive'].append('%s: %s' % (r['status'], r['detail'][:300])); continue
         o = r['obs']
         res['cases'] += o['cases']; res['silent'] += len(o['silent'])
+        if o.get('truncated'): res['truncated_paths'] = res.get('truncated_paths', 0) + 1
         for sr in o['silent']: res.setdefault('silent_reasons', {}); res['silent_reasons'][sr] = res['silent_reasons'].get(sr, 0) + 1
         for k in o['ref']: res['ref_kinds'][k] = res['ref_kinds'].get(k, 0) + 1
         for u in o['unknown']: res['inconclusive'].append('oracle: ' + u)
@@ -336,6 +342,8 @@ def confirm_violation(v, src, nat):
     if v['aspect'] == 'panic': return code == 101 or (isinstance(code, int) and code < 0)
     if v['aspect'] == 'hang': return code == 'timeout'
     ref = sem.run_concrete(src)
+    if ref[0] == 'unspecified' and v.get('ref') == 'unspecified-print':
+        return code == 103 and ref[3] is not None and out != ref[3]
     if ref[0] == 'unspecified': return False
     if ref[0] == 'syntax': exp_code = 103
     else: exp_code = 0 if ref[0] == 'ok' else 103
